@@ -48,6 +48,11 @@ class SemgrepRuleDetector(BaseDetector):
         yaml_files = self.get_yaml_files(codemod_id)
         with context.timer.measure("semgrep"):
             files_to_analyze = context.semgrep_results_for_rule(codemod_id)
+            if context.semgrep_prefilter_results is not None and not files_to_analyze:
+                # the pre-filter pass already ran this rule over every candidate
+                # file and found nothing: do not fall back to scanning the whole
+                # target directory (which semgrep rejects when it is a symlink)
+                return ResultSet()
             return semgrep_run(context, yaml_files, files_to_analyze)
 
 
